@@ -335,8 +335,203 @@ def oracle_shufflin_line(o, r):
     return bad[:6]
 
 
+# ---------------------------------------------------------------------------------------------------------
+# id histories: abstract simulation (python, independent of the Lean model) used by the generator and the oracle
+# ---------------------------------------------------------------------------------------------------------
+class IdSim:
+    """per rank: live ids, unused stack, old, new -- the abstract meaning of the ref_node id operations"""
+
+    def __init__(self, np):
+        self.np = np
+        self.live = [set() for _ in range(np)]
+        self.unused = [[] for _ in range(np)]
+        self.old = [-1] * np
+        self.new = [-1] * np
+        self.enabled = True     # every event so far satisfied its guard
+        self.setup_ok = True
+
+    def elsewhere(self, r, g):
+        return any(g in self.live[q] for q in range(self.np) if q != r)
+
+    def ev(self, r, t):
+        if t[0] == 'N':
+            self.old[r] = self.new[r] = int(t[1:])
+        elif t[0] == 'a':
+            self.live[r].add(int(t[1:]))
+        elif t in ('F', 'T'):
+            if self.unused[r]:
+                g = self.unused[r].pop()
+            else:
+                if self.new[r] < 0:
+                    self.setup_ok = False
+                    return
+                g = self.new[r]
+                self.new[r] += 1
+            if t == 'F':
+                self.live[r].add(g)
+            else:
+                self.unused[r].append(g)
+        elif t[0] == 'R':
+            g = int(t[1:])
+            if g in self.live[r]:
+                if g < self.old[r] and self.elsewhere(r, g):
+                    self.enabled = False
+                self.live[r].discard(g)
+                self.unused[r].append(g)
+        elif t[0] == 'W':
+            g = int(t[1:])
+            if g in self.live[r]:
+                if not (g < self.old[r] and self.elsewhere(r, g)):
+                    self.enabled = False
+                self.live[r].discard(g)
+
+    def states(self):
+        return [{'old': self.old[r], 'new': self.new[r], 'live': sorted(self.live[r]), 'unused': list(self.unused[r])}
+                for r in range(self.np)]
+
+    def sync(self):
+        """the specification of ref_node_synchronize_globals: shared ids keep their order, fresh ids follow by rank"""
+        old = self.old[0]
+        gone = {u for r in range(self.np) for u in self.unused[r] if u < old}
+        shared = sorted({g for r in range(self.np) for g in self.live[r] if g < old} - gone)
+        m = {('o', g): i for i, g in enumerate(shared)}
+        n = len(shared)
+        for r in range(self.np):
+            for g in sorted(x for x in self.live[r] if x >= old):
+                m[('n', r, g)] = n
+                n += 1
+        for r in range(self.np):
+            self.live[r] = {m[('o', g)] if g < old else m[('n', r, g)] for g in self.live[r]}
+            self.unused[r] = []
+            self.old[r] = self.new[r] = n
+
+
+def gen_idhist_one(rng, np, enabled_only=True):
+    old = rng.choice([0, 1, 3, 6, 10])
+    sim = IdSim(np)
+    evs = [[] for _ in range(np)]
+    holders = {g: (rng.sample(range(np), rng.randint(1, np)) if rng.random() < 0.6 else [rng.randrange(np)]) for g in range(old)}
+    for r in range(np):
+        evs[r].append('N%d' % old)
+        mine = [g for g in range(old) if r in holders[g]]
+        rng.shuffle(mine)
+        evs[r] += ['a%d' % g for g in mine]
+        for t in evs[r]:
+            sim.ev(r, t)
+    nseg = rng.randint(1, 3)
+    for seg in range(nseg):
+        start = [set(s) for s in sim.live]   # liveness at the start of the segment decides the guards in ANY interleaving
+        for r in range(np):
+            for _ in range(rng.randint(0, 6)):
+                k = rng.random()
+                mine = sorted(sim.live[r])
+                if k < 0.35 or not mine:
+                    t = 'F'
+                elif k < 0.5:
+                    t = 'T'
+                elif k < 0.8:
+                    g = rng.choice(mine)
+                    excl = g >= sim.old[r] or not any(g in start[q] for q in range(np) if q != r)
+                    if enabled_only and not excl:
+                        t = 'W%d' % g if any(g in sim.live[q] for q in range(np) if q != r) and g < sim.old[r] else 'F'
+                    else:
+                        t = 'R%d' % g
+                else:
+                    g = rng.choice(mine)
+                    ghost = g < sim.old[r] and any(g in start[q] and g in sim.live[q] for q in range(np) if q > r)
+                    # only drop a copy when a HIGHER rank still holds one at segment start and never drops it first
+                    if enabled_only and not ghost:
+                        t = 'T'
+                    else:
+                        t = 'W%d' % g
+                evs[r].append(t)
+                sim.ev(r, t)
+        if seg < nseg - 1 or rng.random() < 0.8:
+            for r in range(np):
+                evs[r].append('S')
+            sim.sync()
+    return 'idhist %d %s' % (np, ' '.join('| ' + ' '.join(e) for e in evs))
+
+
+def gen_idhist(rng, tier, np):
+    n = 12 if tier == 'quick' else 60
+    ops = []
+    # the counterexample of Refine.Props.C06Ids.removeWithoutGlobal_fresh_breaks (np >= 2): dropping a FRESH vertex
+    # without returning its id loses the id
+    if np >= 2:
+        ops.append('idhist %d | N4 a0 a1 a2 F W4 S | N4 a1 a2 a3 F S %s' % (np, '| N4 a0 S ' * (np - 2)))
+    for _ in range(n):
+        ops.append(gen_idhist_one(rng, np, enabled_only=rng.random() < 0.8))
+        if rng.random() < 0.05:
+            ops.append(rng.choice(['idhist %d | N3 a0 | S' % np, 'idhist %d %s' % (np, '| a1 N2 ' * np), 'idhist %d %s' % (np, '| Q ' * np),
+                                   'idhist %d 7 %s' % (np, '| F ' * np)]))
+    return ops
+
+
+def parse_idstate(txt):
+    w = txt.split()
+    if len(w) < 5 or w[3] != 'T' or 'U' not in w:
+        return None
+    u = w.index('U')
+    table = {int(t.split(':')[0]): int(t.split(':')[1]) for t in w[4:u]}
+    return {'newN': int(w[0]), 'oldN': int(w[1]), 'nunused': int(w[2]), 'table': table, 'unused': [int(x) for x in w[u + 1:]]}
+
+
 def oracle_idhist_line(o, r):
-    return []
+    """reachable_IdInv + sync_bijection on the implementation's lines: when the set-up world satisfies the id invariant
+    and every event satisfies its guard (python simulation of the abstract semantics), then before EVERY
+    synchronisation the implementation's state satisfies the id invariant and after it the ids are 0..N-1, the same on
+    all ranks for a shared vertex"""
+    w = o.split()
+    np = int(w[1])
+    groups = split_groups(w[2:])
+    per_rank = [x.split(' ## ') for x in r.split(' | ')]
+    if len(per_rank) != np:
+        return ['expected %d per-rank results' % np]
+    sim = IdSim(np)
+    pos = [0] * np
+    nsync = groups[0].count('S')
+    bad = []
+    for q in range(np):     # the set-up of every rank comes before anybody's first operation
+        while pos[q] < len(groups[q]) and groups[q][pos[q]][0] in 'Na':
+            sim.ev(q, groups[q][pos[q]])
+            pos[q] += 1
+    if id_invariant(sim.states()) is not None:
+        return bad          # the set-up world is outside the hypotheses
+    for k in range(nsync + 1):
+        for q in range(np):
+            while pos[q] < len(groups[q]) and groups[q][pos[q]] != 'S':
+                sim.ev(q, groups[q][pos[q]])
+                pos[q] += 1
+            pos[q] += 1
+        if k == nsync:
+            break
+        pre = [parse_idstate(per_rank[q][2 * k]) if 2 * k < len(per_rank[q]) else None for q in range(np)]
+        post = [parse_idstate(per_rank[q][2 * k + 1]) if 2 * k + 1 < len(per_rank[q]) else None for q in range(np)]
+        if any(x is None for x in pre + post):
+            return ['malformed state at synchronisation %d' % k]
+        states = [{'old': p['oldN'], 'new': p['newN'], 'slots': p['table'], 'live': list(p['table'].values()),
+                   'unused': p['unused']} for p in pre]
+        if not (sim.enabled and sim.setup_ok):
+            return bad          # outside the hypotheses: correspondence only
+        # the implementation's state is the one the abstract semantics predicts ...
+        for q in range(np):
+            if sorted(states[q]['live']) != sorted(sim.live[q]) or sorted(states[q]['unused']) != sorted(sim.unused[q]):
+                bad.append('sync %d rank %d: live/unused ids %s/%s, abstract semantics says %s/%s' %
+                           (k, q, sorted(states[q]['live']), states[q]['unused'], sorted(sim.live[q]), sim.unused[q]))
+        why = id_invariant(states)
+        if why is not None:
+            # only a violation when the history started from a world satisfying the invariant
+            bad.append('sync %d: id invariant broken before ref_node_synchronize_globals after an enabled history: %s' % (k, why))
+            return bad
+        posts = [{'newN': p['newN'], 'oldN': p['oldN'], 'nunused': p['nunused'], 'table': p['table']} for p in post]
+        for m in check_bijection(states, posts):
+            bad.append('sync %d: %s' % (k, m))
+        sim.sync()
+        for q in range(np):
+            if sorted(post[q]['table'].values()) != sorted(sim.live[q]):
+                bad.append('sync %d rank %d: ids after the call %s, specification %s' % (k, q, sorted(post[q]['table'].values()), sorted(sim.live[q])))
+    return bad[:6]
 
 
 def oracle(ops, impl):
@@ -371,4 +566,6 @@ def _mk(name, gen, nps, thorough_only=False):
 
 SHUF = _mk('dist2_shufflin', gen_shufflin, NP_QUICK)
 SHUF_MORE = _mk('dist2_shufflin_more', gen_shufflin, NP_MORE, True)
-STREAMS = [SHUF, SHUF_MORE]
+IDH = _mk('dist2_idhist', gen_idhist, NP_QUICK)
+IDH_MORE = _mk('dist2_idhist_more', gen_idhist, NP_MORE, True)
+STREAMS = [SHUF, IDH, SHUF_MORE, IDH_MORE]
